@@ -613,7 +613,7 @@ def exercise(recipe):
     objects obtained (none of which is one of the held results)"""
     gen = U.L.ByteFieldGenerator.from_int
     r = U.norm(recipe)["cfg"]
-    for _, o, _ in produce(recipe):
+    for k, (_, o, _) in enumerate(produce(recipe)):
         if isinstance(o, (bytes, bytearray)):
             if isinstance(o, bytearray):
                 for i in range(len(o)):  # the caller owns what pack() returned
@@ -625,7 +625,8 @@ def exercise(recipe):
         for attr in ("source_entity_id", "transaction_seq_num", "dest_entity_id"):
             f = getattr(o, attr)
             try:
-                f.value = int(f.value) ^ 0x55  # B's own field objects: may or may not reach B, must never reach A
+                f.value = int(f.value) ^ (0x51 + k)  # B's own field objects: may or may not reach B, must never reach A
+                # (a different pattern per object: two writes to one shared object must not cancel)
             except Exception:  # noqa: BLE001 - a library with read-only field objects is not wrong
                 pass
         _ = o.pack()
